@@ -21,12 +21,21 @@ CHECKS = {
     "C03": ("in-critical-section channel-discipline monitor plus quiescence check for missed broadcasts; gated sample/block template",
             "Every critical section checks open/closed status of all wait channels handed out; Wait results are checked against the predicate log; blocked-but-satisfied waiters are judged at quiescence.",
             "The harness owns the guarded state and broadcasts with every change; gates only order goroutines.", "4/C03"),
+    "C04": ("per-container active-instance counter asserted at every entry of the managed function + watched wait channels, over burst histories with slow-exiting instances, removal/re-add, retry timers; gated hold-inside-exit template",
+            "An overlap flagged by the counter is a real overlap (instances stamp entry/return themselves); reach comes from bursts of supersessions inside one exit latency and perturbed execute/timer schedule points.",
+            "Managed functions are harness closures; quiescence/timer settling only ends cases, it never produces the verdict.", "4/C04"),
+    "C05": ("post-call supersession assertion (every instance entered before the call has a cancelled context) + quiescent survivor judgement (count, context lineage tag, state vs GetState) under 3-5 concurrent drivers",
+            "Sequential and concurrent histories with self-exiting, failing (retry timers) and run-until-cancelled instances; calls paced around the backoff period so timer callbacks race with them.",
+            "Context operations are serialised in one driver so 'last context' is defined; liveness-style sub-checks are skipped once a root context was cancelled behind the container's back.", "4/C05"),
     "C11": ("single-winner / by-result agreement monitor + porcupine single-assignment model + interval oracle for PromiseContainer replacements; spinning decided by counting Broadcast critical sections; quiescence check for blocked awaiters",
             "Concurrent setters/awaiters with every interruption source and sentinel error values; container awaiters are judged against the intervals in which each promise was current and resolved.",
             "Values are unique per SetResult; two recorded known findings (container ignores errCh / cancelCh while a promise is pending) are matched by exact signature.", "4/C11"),
     "C12": ("linearizability checking of recorded histories with porcupine (stack and deque models) + conservation monitor, CAS windows widened by failpoint-style delays",
             "Thousands of short concurrent histories per run are checked against sequential models; large runs check that no element is lost or duplicated.",
             "porcupine v1.3.0 trusted; timeouts are inconclusive; histories are short (NP-complete checking).", "4/C12"),
+    "C14": ("sequential reference-machine monitor: per-call required/forbidden re-runs judged at settled states, post-hoc cause check for every re-run, WaitExited and exit-callback oracles, recording backoff",
+            "Histories of 14-64 calls with scripted outcomes; some calls are issued inside the backoff interval (unsettled) and judged only by the cause rule; one recorded known finding (success lost when the context changes between return and bookkeeping).",
+            "Retry timers: 1 ms backoff, 'surely fired' = 30 periods + quiescence, repeated until the instance count is stable.", "4/C14"),
     "C15": ("porcupine register model (with custom-equality no-op rule) + SwapValue conservation + waiter return/quiescence monitors + gated sample/block template",
             "Short concurrent histories are checked for linearizability; waiter results are checked against the condition, the write log and the interruption sources; blocked-but-satisfied waiters are judged at quiescence.",
             "Unique written values identify the write a waiter observed; custom equalities include a non-reflexive (nil-safe) one.", "4/C15"),
